@@ -586,7 +586,7 @@ func c13InProcGrpc(e *c13Env, payload []byte) (string, string) {
 	e.mux.ServeHTTP(rec, r)
 	st := rec.Result().Trailer.Get("Grpc-Status")
 	if st == "" {
-		st = rec.Header().Get("Grpc-Status")
+		st = rec.Result().Header.Get("Grpc-Status")
 	}
 	b := rec.Body.Bytes()
 	if len(b) < 5 {
